@@ -254,9 +254,75 @@ def worker(block):
                     except Hang:
                         res.violation({"category": "hang"}, sc, "diagram generation hung")
     if lo == 0:
+        not_yet_activated(res)
         res.samples.append({"n": 3, "edges": [[0, 1], [1, 1], [1, 2]], "init": 0, "finals": [2],
                             "deco": "internal", "checked": "class + instance in s0, s1, s2"})
     return res
+
+
+def not_yet_activated(res):
+    """An instance of a machine with coroutine callbacks has no current state until it is
+    activated (first event / activate_initial_state()): its diagram shows the machine with no
+    state highlighted, and the initial state highlighted once it has been activated."""
+    import asyncio
+    from statemachine import State, StateMachine
+    from statemachine.contrib.diagram import DotGraphMachine
+    from statemachine.factory import StateMachineMetaclass
+    for n, edges, init, finals in ((2, [(0, 1), (1, 0)], 0, ()), (2, [(0, 1)], 0, (1,)),
+                                   (3, [(0, 1), (1, 2), (2, 0), (1, 1)], 1, ())):
+        for where in ("sync-code", "running-loop"):
+            _cls0, exp = make(n, edges, init, set(finals), "plain")
+
+            async def after_transition(self):
+                return None
+            st = [State(name=f"State {i}", initial=(i == init), final=(i in finals),
+                        **({"value": VALUES[i % 3]} if VALUES[i % 3] is not None else {}))
+                  for i in range(n)]
+            body = {IDSETS["s"][i]: st[i] for i in range(n)}
+            for (a, b) in sorted(edges):
+                st[a].to(st[b], event="e")
+            body["after_transition"] = after_transition
+            with warnings.catch_warnings():
+                warnings.simplefilter("ignore")
+                cls = StateMachineMetaclass("DA", (StateMachine,), body)
+            sc = {"not_activated": [n, [list(e) for e in edges], init, list(finals), where]}
+            res.stats["transitions"] += 2
+
+            def graphs_of():
+                sm = cls()
+                return sm, [sm._graph(), DotGraphMachine(sm)()]
+
+            try:
+                if where == "sync-code":
+                    sm, gs = graphs_of()
+                    act = sm.activate_initial_state()
+                    if hasattr(act, "__await__"):
+                        asyncio.new_event_loop().run_until_complete(act)
+                    after = sm._graph()
+                else:
+                    async def main():
+                        sm, gs = graphs_of()
+                        await sm.activate_initial_state()
+                        return sm, gs, sm._graph()
+                    loop = asyncio.new_event_loop()
+                    try:
+                        sm, gs, after = loop.run_until_complete(main())
+                    finally:
+                        loop.close()
+            except Exception as e:   # noqa: BLE001
+                res.violation({"category": "not-activated-instance", "where": where}, sc,
+                              f"diagram of a not yet activated async instance ({where}): "
+                              f"{type(e).__name__}: {e}")
+                continue
+            msg = None
+            for g in gs:
+                msg = msg or check_graph(g, exp, None)
+            msg = msg or check_graph(after, exp, IDSETS["s"][init])
+            if msg:
+                res.violation({"category": "not-activated-instance", "where": where}, sc,
+                              f"async instance ({where}): {msg}")
+            else:
+                res.hist["not-activated-instance"] += 1
 
 
 def _cat(msg):
@@ -294,6 +360,13 @@ def run(tier, seed):
 
 def replay(sc):
     from statemachine.contrib.diagram import DotGraphMachine
+    if "not_activated" in sc:
+        res = BlockResult()
+        not_yet_activated(res)
+        for v in res.violations:
+            if v["scenario"] == sc:
+                return v["message"]
+        return None
     edges = [tuple(e) for e in sc["edges"]]
     ids = sc.get("ids", "s")
     cls, exp = make(sc["n"], edges, sc["init"], set(sc["finals"]), sc["deco"], ids=ids)
